@@ -874,7 +874,7 @@ Proof.
     + rewrite app_length. cbn [length]. lia.
     + intros e He. apply in_app_or in He. destruct He as [He|[He|[]]].
       * apply unanswered_snoc; [apply Iun; exact He|]. intros d Hd. discriminate Hd.
-      * subst e. exists tr, (k_ntx k), (k_now k), []. cbn [new_entry e_cmd e_seq].
+      * subst e. exists tr, (k_ntx k), (k_now k + dur (cf_iter cf) (c_id c)), []. cbn [new_entry e_cmd e_seq].
         split; [reflexivity|]. split; [exact F3|]. intros d [].
     + intros d Hd. apply in_recv_snoc in Hd. destruct Hd as [Hd|Hd]; [apply Inf; exact Hd|discriminate Hd].
   - (* ---------------------------------------------------------------- iterator exhausted *)
@@ -883,7 +883,7 @@ Proof.
     constructor; cbn [m_tr m_b b_out b_queue b_queued b_cbs BS]; try assumption.
     intros _. reflexivity.
   - (* ---------------------------------------------------------------- callback *)
-    apply (inv_quiet cf cmds tr k k (BS q qd out ((c, d) :: cbs)) (BS q qd out cbs) (OCallback c d) HI);
+    apply (inv_quiet cf cmds tr k _ (BS q qd out ((c, d) :: cbs)) (BS q qd out cbs) (OCallback c d) HI);
       try reflexivity.
     + intros d0 H. discriminate H.
     + intros c0. rewrite <- (astep_cnt cf _ _ c0 Hst). reflexivity.
